@@ -1,5 +1,7 @@
 package gen
 
+import "fmt"
+
 // The control-flow families (DESIGN.md 1.1): CF-full, CF-core, CF-lite.
 
 func atom(name string, print func(p *Printer, s *Stmt)) *Kind {
@@ -287,4 +289,143 @@ func (f *Family) validFuncs(l List) bool {
 		}
 	}
 	return true
+}
+
+// WellFormed: l is a member of the family's program space — jumps only in last position and in a
+// legal context, a direct yield, nested generator literals yield, no silent spin.
+func (f *Family) WellFormed(l List) bool {
+	return f.wf(l, ctx{}) && f.DirectYield(l) && f.validFuncs(l) && !f.Spins(l)
+}
+
+func (f *Family) wf(l List, c ctx) bool {
+	for i, s := range l {
+		k := f.byName(s.K)
+		if k == nil || len(s.Ch) != k.Arity {
+			return false
+		}
+		if k.Jump && i != len(l)-1 {
+			return false
+		}
+		if k.NeedL && !c.loop || k.NeedB && !(c.loop || c.sw) {
+			return false
+		}
+		cc := c
+		switch {
+		case k.Func:
+			cc = ctx{}
+		case k.Loop:
+			cc = ctx{loop: true}
+		case k.Switch:
+			cc.sw = true
+		}
+		for _, ch := range s.Ch {
+			if !f.wf(ch, cc) {
+				return false
+			}
+		}
+	}
+	return true
+}
+
+func (f *Family) byName(n string) *Kind {
+	f.Kind("Y0") // ensure the index exists; unknown names return nil below
+	return f.byN[n]
+}
+
+// ---- YF family (C05): delegation atoms over helper generators declared in corpus/yfhelpers.go.txt
+
+func yfAtom(name, expr string) *Kind {
+	return &Kind{Name: name, Yields: true, EventFirst: true, Print: func(p *Printer, s *Stmt) {
+		p.W("%s", p.YF(fmt.Sprintf("rt.S(c, %d, %s)", p.ID(), expr)))
+	}}
+}
+
+var yfKinds = []*Kind{
+	yfAtom("YF0", "G0(c)"),
+	yfAtom("YF2", "G2(c)"),
+	yfAtom("YFInf", "GInf(c)"),
+	yfAtom("YFRec", "Rec(c, 2)"),
+	yfAtom("YFCh", "Gc(c)"),
+	yfAtom("YFTree", "Walk(c, tree3)"),
+	// hand-advanced delegate: one element consumed before delegation
+	{Name: "YFAdv", Yields: true, EventFirst: true, Print: func(p *Printer, s *Stmt) {
+		p.W("{")
+		p.In()
+		p.W("it := G3(c)")
+		p.W("c.X(%d, it.MoveNext())", p.ID())
+		p.W("c.X(%d, it.Current())", p.ID())
+		p.W("%s", p.YF("it"))
+		p.Out()
+		p.W("}")
+	}},
+	// already exhausted delegate
+	{Name: "YFDone", Yields: true, EventFirst: true, Print: func(p *Printer, s *Stmt) {
+		p.W("{")
+		p.In()
+		p.W("it := G2(c)")
+		p.W("for it.MoveNext() {")
+		p.W("}")
+		p.W("c.E(%d)", p.ID())
+		p.W("%s", p.YF("it"))
+		p.Out()
+		p.W("}")
+	}},
+	// the same iterator delegated twice: the second delegation finds it exhausted
+	{Name: "YFTwice", Yields: true, EventFirst: true, Print: func(p *Printer, s *Stmt) {
+		p.W("{")
+		p.In()
+		p.W("it := G2(c)")
+		p.W("%s", p.YF("it"))
+		p.W("c.E(%d)", p.ID())
+		p.W("%s", p.YF("it"))
+		p.Out()
+		p.W("}")
+	}},
+	{Name: "ForPostYF", Arity: 1, Loop: true, Yields: true, EventFirst: true, Print: func(p *Printer, s *Stmt) {
+		a := p.ID()
+		p.W("for ; c.B(%d); %s {", a, p.YF(fmt.Sprintf("rt.S(c, %d, G2(c))", p.ID())))
+		p.Blk(s.Ch[0])
+		p.W("}")
+	}},
+	{Name: "ForInitYF", Arity: 1, Loop: true, Yields: true, EventFirst: true, Print: func(p *Printer, s *Stmt) {
+		a := p.ID()
+		p.W("for %s; c.B(%d); {", p.YF(fmt.Sprintf("rt.S(c, %d, G2(c))", a)), p.ID())
+		p.Blk(s.Ch[0])
+		p.W("}")
+	}},
+	{Name: "SwInitYF", Arity: 1, Switch: true, Yields: true, EventFirst: true, Print: func(p *Printer, s *Stmt) {
+		a := p.ID()
+		p.W("switch %s; c.I(%d) {", p.YF(fmt.Sprintf("rt.S(c, %d, G2(c))", a)), p.ID())
+		p.W("case 0:")
+		p.Blk(s.Ch[0])
+		p.W("}")
+	}},
+}
+
+func init() {
+	CFAll.Kinds = append(CFAll.Kinds, yfKinds...)
+	CFAll.byN = nil
+	YF = CFAll.Sub("YF",
+		"Y", "E", "Br", "Co", "Rt",
+		"YF0", "YF2", "YFInf", "YFRec", "YFCh", "YFTree", "YFAdv", "YFDone", "YFTwice",
+		"If", "IfElse", "Sw2", "SwNoTag", "ForInf", "While", "For3", "ForPostY", "Block",
+		"ForPostYF", "ForInitYF", "SwInitYF")
+}
+
+// YF: CF-core plus delegation.
+var YF *Family
+
+// HasDelegation: the program uses one of the delegation forms.
+func HasDelegation(l List) bool {
+	for _, s := range l {
+		if len(s.K) >= 2 && s.K[:2] == "YF" || s.K == "ForPostYF" || s.K == "ForInitYF" || s.K == "SwInitYF" {
+			return true
+		}
+		for _, ch := range s.Ch {
+			if HasDelegation(ch) {
+				return true
+			}
+		}
+	}
+	return false
 }
